@@ -471,12 +471,34 @@ def dup_short_stream(tier, rng, n):
         yield "steps %s . %s" % (d0.wire(), " ".join(steps)), "dup-short-steps"
 
 
+def fail_then_parse_stream(tier, rng):
+    """directed histories: a call that FAILS at a chosen point (option given twice with a detached / an attached value, missing
+    value, unknown option, unknown letter in a bundle, too many positionals, reversal not allowed, both polarities), then a
+    second call whose FIRST tokens are of every kind — nothing of the failed call may be left armed in the object"""
+    d = Decl([("out", "o", None, None, True), ("lvl", "l", None, "d", True)], [("inc", "i", None, None, True)],
+             [("verbose", "v", None, 0, False), ("all", "a", None, 0, True)], 1, False)
+    failing = [["--out", "a", "--out", "b"], ["-o", "a", "-o", "b"], ["--out=a", "--out=b"], ["--out", "a", "-o=b"],
+               ["--out"], ["-o"], ["--inc"], ["--bogus"], ["-vz"], ["-vo", "x"], ["p", "q"], ["--no-verbose"],
+               ["--all", "--no-all"], ["--no-all", "-a"], ["--out", "a", "p", "q"], ["-v", "--out", "a", "--out", "b", "p"],
+               ["--lvl", "1", "--lvl", "2"], ["--", "p", "q"], ["p", "--out", "a", "--out", "b"]]
+    seconds = [[], ["-v"], ["--bogus"], ["-vz"], ["p"], ["p", "q"], ["--out", "x"], ["-v", "-v"], ["--out", "x", "-v"],
+               ["--inc", "1", "--inc", "2"], ["--no-all"], ["--all"], ["--"], ["-a", "p"], ["--lvl=7"], ["-o=y", "p"]]
+    for f in failing:
+        for s2 in seconds:
+            yield "steps %s . a:%s a:%s" % (d.wire(), wl(f), wl(s2)), "fail-then-parse"
+            if tier == "thorough" or rng.random() < 0.25:
+                yield "steps %s . a:%s mc a:%s" % (d.wire(), wl(f), wl(s2)), "fail-then-parse"
+                yield "steps %s . a:%s a:%s a:%s" % (d.wire(), wl(s2), wl(f), wl(s2)), "fail-then-parse"
+                yield "hist %s . %s %s" % (d.wire(), wl(f), wl(s2)), "fail-then-parse"
+
+
 def core_stream(tier, rng, n_random):
     """the stream every parser-cluster check runs: exhaustive short vectors over declaration-relative tokens for
     every shape + random longer vectors + random declarations"""
     yield from reuse_stream(tier, rng, 1500 if tier == "quick" else 15000)
     yield from moved_bundle_stream(tier, rng, 400 if tier == "quick" else 4000)
     yield from dup_short_stream(tier, rng, 300 if tier == "quick" else 3000)
+    yield from fail_then_parse_stream(tier, rng)
     sh = shapes()
     for name, d in sh:
         toks = tokens_for(d, rich=False)
